@@ -201,6 +201,16 @@ fn script_pair(rng: &mut Rng, tier: Tier, ex: &mut dyn FnMut(&str) -> String) {
             ex("dump c0");
             ex("dump s100");
         }
+        if rng.chance(1, 4) {
+            // the query API agrees with what send_message will do, at the exact limit too
+            let c = rng.pick(&cc);
+            let a: u64 = ex(&format!("avail c0 {}", c.id)).parse().unwrap_or(0);
+            for n in [a.saturating_sub(1), a, a + 1] {
+                ex(&format!("cansend c0 {} {}", c.id, n));
+            }
+            let c = rng.pick(&sc);
+            ex(&format!("cansend s100 {} {}", c.id, gen_size(rng)));
+        }
     }
     // heal: lossless, in-order, long enough for the whole backlog
     if budget >= 1300 {
@@ -2125,6 +2135,33 @@ fn oracle_c06(ops: &[String], outs: &[String]) -> Option<OracleFail> {
     None
 }
 
+/// C09 (query API): `can_send_message(n)` is true exactly when n fits the available memory just reported.
+fn oracle_cansend(ops: &[String], outs: &[String]) -> Option<OracleFail> {
+    let mut last: Option<(String, String, u64, usize)> = None;
+    for (i, (op, out)) in ops.iter().zip(outs.iter()).enumerate() {
+        let t: Vec<&str> = op.split(' ').collect();
+        match t[0] {
+            "avail" if t.len() == 3 => {
+                last = out.parse::<u64>().ok().map(|a| (t[1].to_string(), t[2].to_string(), a, i));
+            }
+            "cansend" if t.len() == 4 => {
+                if let Some((w, c, a, _)) = &last {
+                    if w == t[1] && c == t[2] {
+                        let n: u64 = t[3].parse().unwrap_or(0);
+                        let want = n <= *a;
+                        if out != &want.to_string() {
+                            return fail(i, "cansend-disagrees", format!("{} channel {}: available {} but can_send_message({}) = {}", t[1], t[2], a, n, out));
+                        }
+                    }
+                }
+            }
+            "send" | "flush" | "dlv" | "recv" | "upd" | "raw" | "dlvm" => last = None,
+            _ => {}
+        }
+    }
+    None
+}
+
 /// C09: accounting is exact at every dump (empty channel ⇒ zero bytes accounted), incomplete
 /// unreliable fragments older than 3 s are gone, and at a quiescent point nothing is left over.
 fn oracle_c09(ops: &[String], outs: &[String]) -> Option<OracleFail> {
@@ -2583,6 +2620,7 @@ pub fn oracles() -> Vec<Oracle> {
         Oracle { prop: "C16", name: "acks-are-the-set", engines: &["rn-sweep-acks"], check: oracle_sweep_acks },
         Oracle { prop: "C08", name: "acks-are-the-set", engines: &["rn-sweep-acks"], check: oracle_sweep_acks },
         Oracle { prop: "C06", name: "no-panic-bounded", engines: &["rn-"], check: oracle_c06 },
+        Oracle { prop: "C09", name: "query-api", engines: &["rn-pair"], check: oracle_cansend },
         Oracle { prop: "C09", name: "accounting", engines: &["rn-pair", "rn-hostile", "rn-regress", "rn-long", "rn-timing", "rn-acks"], check: oracle_c09 },
         Oracle { prop: "C12", name: "finality-events", engines: &["rn-api", "rn-regress", "rn-hostile"], check: oracle_c12 },
         Oracle { prop: "C13", name: "packet-size", engines: &["rn-pair", "rn-regress", "rn-multi", "rn-hostile", "rn-long", "rn-timing", "rn-acks"], check: oracle_c13 },
